@@ -1,3 +1,970 @@
-"""String models (filled in below)."""
+"""String models: str / String / Path / OsStr / char.
+
+Representation: a string is a tuple of bytes of *concrete length*; each byte is a Python
+int or a Z3 Int term constrained (by the harness) to an ASCII alphabet.  Concrete bytes may
+be non-ASCII (real UTF-8); symbolic bytes are always ASCII, so every symbolic byte is one
+char and a char boundary.  Slices carry (allocation, offset) provenance so that pointer
+differences (`a.as_ptr() as usize - b.as_ptr() as usize`) are exact.
+"""
+import re
+import z3
+
 from .values import *
-from .models import reg
+from .models import (reg, as_sstr, new_string, opt, call_closure, bytes_equal, compare_bytes,
+                     ListIter, IterVal, load_vec, sym_and, sym_or, sym_not)
+from .interp import LESS, EQUAL, GREATER, cmp_scalar
+
+WS_ASCII = (9, 10, 11, 12, 13, 32)
+WS_UNICODE = set([0x85, 0xA0, 0x1680, 0x2028, 0x2029, 0x202F, 0x205F, 0x3000]) | set(range(0x2000, 0x200B))
+
+
+def conc(b):
+    return isinstance(b, int)
+
+
+def all_conc(bs):
+    for b in bs:
+        if not isinstance(b, int):
+            return False
+    return True
+
+
+def byte_in(b, vals):
+    if conc(b):
+        return b in vals
+    return z3.Or(*[b == v for v in vals])
+
+
+def byte_between(b, lo, hi):
+    if conc(b):
+        return lo <= b <= hi
+    return z3.And(b >= lo, b <= hi)
+
+
+def beq(b, k):
+    if conc(b) and conc(k):
+        return b == k
+    return b == k
+
+
+def is_boundary(bs, i):
+    n = len(bs)
+    if i == 0 or i == n:
+        return True
+    if i > n:
+        return False
+    b = bs[i]
+    if conc(b):
+        return (b & 0xC0) != 0x80
+    return True
+
+
+def chars_of(bs):
+    """[(byte_offset, codepoint (int|sym), nbytes)]"""
+    out = []
+    i = 0
+    n = len(bs)
+    while i < n:
+        b = bs[i]
+        if not conc(b) or b < 0x80:
+            out.append((i, b, 1))
+            i += 1
+            continue
+        if b >= 0xF0:
+            k = 4
+        elif b >= 0xE0:
+            k = 3
+        elif b >= 0xC0:
+            k = 2
+        else:
+            k = 1
+        chunk = bs[i:i + k]
+        if len(chunk) == k and all_conc(chunk):
+            try:
+                cp = ord(bytes(chunk).decode('utf-8'))
+            except (UnicodeDecodeError, TypeError, ValueError):
+                cp, k = 0xFFFD, 1
+        else:
+            cp, k = 0xFFFD, 1
+        out.append((i, cp, k))
+        i += k
+    return out
+
+
+def encode_cp(cp):
+    if is_sym(cp):
+        return (cp,)
+    return tuple(chr(cp).encode('utf-8'))
+
+
+def char_is_ws(c):
+    if conc(c):
+        return c in WS_ASCII or c in WS_UNICODE
+    return byte_in(c, WS_ASCII)
+
+
+def char_is_alnum(c):
+    if conc(c):
+        return chr(c).isalnum()
+    return z3.Or(byte_between(c, 48, 57), byte_between(c, 65, 90), byte_between(c, 97, 122))
+
+
+def char_is_ascii_digit(c):
+    return byte_between(c, 48, 57)
+
+
+@reg('char::is_whitespace')
+def _c_is_ws(I, a, ci, dt):
+    return char_is_ws(a[0])
+
+
+@reg('char::is_alphanumeric')
+def _c_is_alnum(I, a, ci, dt):
+    return char_is_alnum(a[0])
+
+
+@reg('char::is_ascii_digit', 'char::is_numeric')
+def _c_is_digit(I, a, ci, dt):
+    c = a[0]
+    c = I.deref_value(c) if isinstance(c, Ref) else c
+    return char_is_ascii_digit(c)
+
+
+@reg('char::is_alphabetic', 'char::is_ascii_alphabetic')
+def _c_is_alpha(I, a, ci, dt):
+    c = a[0]
+    c = I.deref_value(c) if isinstance(c, Ref) else c
+    if conc(c):
+        return chr(c).isalpha()
+    return z3.Or(byte_between(c, 65, 90), byte_between(c, 97, 122))
+
+
+@reg('char::is_ascii_whitespace')
+def _c_is_ascii_ws(I, a, ci, dt):
+    c = a[0]
+    c = I.deref_value(c) if isinstance(c, Ref) else c
+    return byte_in(c, (9, 10, 12, 13, 32))
+
+
+@reg('char::is_ascii')
+def _c_is_ascii(I, a, ci, dt):
+    c = a[0]
+    c = I.deref_value(c) if isinstance(c, Ref) else c
+    return c < 128 if conc(c) else True
+
+
+# ------------------------------------------------------------------ patterns
+
+class Pat:
+    """A str pattern: matcher at a char position -> (cond, byte_len)."""
+
+    def __init__(self, I, p):
+        self.I = I
+        p0 = p
+        if isinstance(p, Ref):
+            p = I.deref_value(p)
+        self.kind = None
+        if isinstance(p, (SStr, SString)):
+            self.kind = 'str'
+            self.b = p.b
+        elif isinstance(p, int) or is_sym(p):
+            self.kind = 'char'
+            self.c = p
+        elif isinstance(p, Closure) or isinstance(p, FnItem):
+            self.kind = 'pred'
+            self.f = p
+        elif isinstance(p, VecVal):
+            self.kind = 'chars'
+            self.cs = p.items
+        else:
+            raise Unmodelled('str pattern %r' % (p0,))
+
+    def match_at(self, bs, chars, k):
+        """chars = chars_of(bs); k index into chars. Returns (cond, nbytes) or (False, 0)."""
+        off, cp, nb = chars[k]
+        if self.kind == 'str':
+            m = len(self.b)
+            if off + m > len(bs):
+                return False, 0
+            return bytes_equal(bs[off:off + m], self.b), m
+        if self.kind == 'char':
+            if conc(cp) and conc(self.c):
+                return cp == self.c, nb
+            return cp == self.c, nb
+        if self.kind == 'chars':
+            r = False
+            for c in self.cs:
+                r = sym_or(r, (cp == c) if not (conc(cp) and conc(c)) else (cp == c))
+            return r, nb
+        if self.kind == 'pred':
+            return call_closure(self.I, self.f, cp), nb
+        raise EngineError(self.kind)
+
+    def empty_str(self):
+        return self.kind == 'str' and len(self.b) == 0
+
+
+def find_first(I, bs, pat, start_char=0):
+    """byte offset and length of first match (forks), or None."""
+    if pat.empty_str():
+        return 0, 0
+    chars = chars_of(bs)
+    for k in range(start_char, len(chars)):
+        cond, nb = pat.match_at(bs, chars, k)
+        if cond is False:
+            continue
+        if I.branch(cond):
+            return chars[k][0], nb
+    return None
+
+
+def find_last(I, bs, pat):
+    if pat.empty_str():
+        return len(bs), 0
+    chars = chars_of(bs)
+    for k in range(len(chars) - 1, -1, -1):
+        cond, nb = pat.match_at(bs, chars, k)
+        if cond is False:
+            continue
+        if I.branch(cond):
+            return chars[k][0], nb
+    return None
+
+
+def sub(s, a, b):
+    return SStr(s.b[a:b], s.alloc, s.off + a)
+
+
+# ------------------------------------------------------------------ basic str methods
+
+@reg('str::len', 'String::len', 'OsStr::len')
+def _len(I, a, ci, dt):
+    return len(as_sstr(I, a[0]).b)
+
+
+@reg('str::is_empty', 'String::is_empty', 'OsStr::is_empty')
+def _is_empty(I, a, ci, dt):
+    return len(as_sstr(I, a[0]).b) == 0
+
+
+@reg('String::as_str', 'str::as_str', 'String::as_mut_str', 'PathBuf::as_path', 'Path::as_os_str', 'OsString::as_os_str',
+     'OsStr::new', 'Path::new', 'String::as_bytes', 'str::as_bytes', 'Path::to_str_unchecked', 'Cow::as_ref',
+     '<Cow as AsRef>::as_ref', '<String as AsRef>::as_ref', '<str as AsRef>::as_ref', '<PathBuf as AsRef>::as_ref',
+     '<Path as AsRef>::as_ref', '<OsString as AsRef>::as_ref', '<OsStr as AsRef>::as_ref', '<String as Borrow>::borrow',
+     '<PathBuf as Deref>::deref', '<String as Deref>::deref', '<OsString as Deref>::deref')
+def _as_str(I, a, ci, dt):
+    return as_sstr(I, a[0])
+
+
+@reg('OsStr::to_str', 'Path::to_str')
+def _to_str(I, a, ci, dt):
+    return Some(as_sstr(I, a[0]))
+
+
+@reg('Path::display', 'Path::to_string_lossy', 'OsStr::to_string_lossy', 'OsStr::display')
+def _display(I, a, ci, dt):
+    return as_sstr(I, a[0])
+
+
+@reg('str::as_ptr', 'String::as_ptr')
+def _as_ptr(I, a, ci, dt):
+    s = as_sstr(I, a[0])
+    return Ptr(s.alloc, s.off)
+
+
+@reg('<str as ToString>::to_string', 'ToString::to_string', 'str::to_string', 'str::to_owned', 'ToOwned::to_owned',
+     '<&str as Into>::into', 'String::from', '<String as From>::from', '<PathBuf as From>::from', '<OsString as From>::from',
+     'Path::to_path_buf', 'PathBuf::from', 'OsString::from', 'str::into_string', 'Path::to_owned', 'OsStr::to_os_string',
+     'Cow::into_owned', 'str::into', 'String::into', '<String as Into>::into', '<&String as Into>::into',
+     'PathBuf::into_os_string', 'OsString::into_string')
+def _to_string(I, a, ci, dt):
+    v = a[0]
+    vv = I.deref_value(v) if isinstance(v, Ref) else v
+    if isinstance(vv, SString) and not isinstance(v, Ref):
+        if ci.method == 'into_string':
+            return Ok(vv)
+        return vv                       # String -> PathBuf/OsString: same buffer
+    if isinstance(vv, (SStr, SString)):
+        r = new_string(I, vv.b)
+        return r
+    if isinstance(vv, Opaque):
+        return vv
+    if isinstance(vv, int) and not isinstance(vv, bool):
+        return new_string(I, str(vv).encode())
+    raise Unmodelled('to_string of %r' % (vv,))
+
+
+@reg('String::new', 'String::with_capacity', 'PathBuf::new', 'OsString::new')
+def _string_new(I, a, ci, dt):
+    return new_string(I, ())
+
+
+@reg('String::push_str')
+def _push_str(I, a, ci, dt):
+    s = I.load(a[0])
+    t = as_sstr(I, a[1])
+    I.store(a[0], SString(s.b + t.b, s.alloc))
+    return UNIT
+
+
+@reg('String::push')
+def _push(I, a, ci, dt):
+    s = I.load(a[0])
+    I.store(a[0], SString(s.b + encode_cp(a[1]), s.alloc))
+    return UNIT
+
+
+@reg('String::clear')
+def _clear(I, a, ci, dt):
+    s = I.load(a[0])
+    I.store(a[0], SString((), s.alloc))
+    return UNIT
+
+
+@reg('str::repeat')
+def _repeat(I, a, ci, dt):
+    s = as_sstr(I, a[0])
+    n = I.concretize(a[1], 'repeat count')
+    if n > 100000:
+        raise Truncated('repeat(%d)' % n)
+    return new_string(I, s.b * n)
+
+
+@reg('<String as Add>::add')
+def _string_add(I, a, ci, dt):
+    return SString(a[0].b + as_sstr(I, a[1]).b, a[0].alloc)
+
+
+def _range_bounds(I, rng, n):
+    """(a, b, kind) concrete bounds of a Range*/usize index over length n."""
+    if isinstance(rng, Ref):
+        rng = I.deref_value(rng)
+    nm = rng.name
+    if nm == 'Range':
+        a, b = rng.f[0], rng.f[1]
+    elif nm == 'RangeFrom':
+        a, b = rng.f[0], n
+    elif nm == 'RangeTo':
+        a, b = 0, rng.f[0]
+    elif nm == 'RangeFull':
+        a, b = 0, n
+    elif nm == 'RangeInclusive':
+        a, b = rng.f[0], rng.f[1] + 1
+    elif nm == 'RangeToInclusive':
+        a, b = 0, rng.f[0] + 1
+    else:
+        raise Unmodelled('string index by %r' % (rng,))
+    a = I.concretize(a, 'slice start')
+    b = I.concretize(b, 'slice end')
+    return a, b
+
+
+def str_index(I, tgt, rng, checked=False):
+    s = as_sstr(I, tgt)
+    n = len(s.b)
+    a, b = _range_bounds(I, rng, n)
+    bad = None
+    if a > b:
+        bad = 'slice index starts at %d but ends at %d' % (a, b)
+    elif b > n:
+        bad = 'byte index %d is out of bounds of string of length %d' % (b, n)
+    elif not is_boundary(s.b, a) or not is_boundary(s.b, b):
+        bad = 'byte index is not a char boundary (%d..%d)' % (a, b)
+    if bad:
+        if checked:
+            return None
+        raise Panic('str slice: ' + bad)
+    return sub(s, a, b)
+
+
+@reg('<str as Index>::index', '<String as Index>::index', '<str as IndexMut>::index_mut')
+def _str_index(I, a, ci, dt):
+    return str_index(I, a[0], a[1])
+
+
+@reg('str::get')
+def _str_get(I, a, ci, dt):
+    return opt(str_index(I, a[0], a[1], checked=True))
+
+
+@reg('str::is_char_boundary')
+def _is_char_boundary(I, a, ci, dt):
+    s = as_sstr(I, a[0])
+    i = I.concretize(a[1])
+    return is_boundary(s.b, i)
+
+
+@reg('str::trim', 'str::trim_start', 'str::trim_end', 'str::trim_ascii')
+def _trim(I, a, ci, dt):
+    s = as_sstr(I, a[0])
+    chars = chars_of(s.b)
+    lo = 0
+    hi = len(chars)
+    if ci.method in ('trim', 'trim_start', 'trim_ascii'):
+        while lo < hi and I.branch(char_is_ws(chars[lo][1])):
+            lo += 1
+    if ci.method in ('trim', 'trim_end', 'trim_ascii'):
+        while hi > lo and I.branch(char_is_ws(chars[hi - 1][1])):
+            hi -= 1
+    a0 = chars[lo][0] if lo < len(chars) else len(s.b)
+    b0 = (chars[hi - 1][0] + chars[hi - 1][2]) if hi > lo else a0
+    return sub(s, a0, b0)
+
+
+@reg('str::trim_matches', 'str::trim_start_matches', 'str::trim_end_matches')
+def _trim_matches(I, a, ci, dt):
+    s = as_sstr(I, a[0])
+    pat = Pat(I, a[1])
+    lo = 0
+    hi = len(s.b)
+    if ci.method in ('trim_matches', 'trim_start_matches'):
+        while lo < hi:
+            chars = chars_of(s.b[lo:hi])
+            if not chars:
+                break
+            cond, nb = pat.match_at(s.b[lo:hi], chars, 0)
+            if nb and cond is not False and I.branch(cond):
+                lo += nb
+            else:
+                break
+    if ci.method in ('trim_matches', 'trim_end_matches'):
+        if pat.kind == 'str':
+            m = len(pat.b)
+            while m and hi - lo >= m and I.branch(bytes_equal(s.b[hi - m:hi], pat.b)):
+                hi -= m
+        else:
+            while hi > lo:
+                chars = chars_of(s.b[lo:hi])
+                cond, nb = pat.match_at(s.b[lo:hi], chars, len(chars) - 1)
+                if cond is not False and I.branch(cond):
+                    hi -= nb
+                else:
+                    break
+    return sub(s, lo, hi)
+
+
+@reg('str::starts_with')
+def _starts_with(I, a, ci, dt):
+    s = as_sstr(I, a[0])
+    pat = Pat(I, a[1])
+    if pat.empty_str():
+        return True
+    chars = chars_of(s.b)
+    if not chars:
+        return False
+    cond, _nb = pat.match_at(s.b, chars, 0)
+    return cond
+
+
+@reg('str::ends_with')
+def _ends_with(I, a, ci, dt):
+    s = as_sstr(I, a[0])
+    pat = Pat(I, a[1])
+    if pat.kind == 'str':
+        m = len(pat.b)
+        if m > len(s.b):
+            return False
+        return bytes_equal(s.b[len(s.b) - m:], pat.b)
+    chars = chars_of(s.b)
+    if not chars:
+        return False
+    cond, _nb = pat.match_at(s.b, chars, len(chars) - 1)
+    return cond
+
+
+@reg('str::strip_prefix')
+def _strip_prefix(I, a, ci, dt):
+    s = as_sstr(I, a[0])
+    pat = Pat(I, a[1])
+    if pat.empty_str():
+        return Some(s)
+    chars = chars_of(s.b)
+    if not chars:
+        return NONE
+    cond, nb = pat.match_at(s.b, chars, 0)
+    if cond is not False and I.branch(cond):
+        return Some(sub(s, nb, len(s.b)))
+    return NONE
+
+
+@reg('str::strip_suffix')
+def _strip_suffix(I, a, ci, dt):
+    s = as_sstr(I, a[0])
+    pat = Pat(I, a[1])
+    if pat.kind == 'str':
+        m = len(pat.b)
+        if m <= len(s.b) and I.branch(bytes_equal(s.b[len(s.b) - m:], pat.b)):
+            return Some(sub(s, 0, len(s.b) - m))
+        return NONE
+    chars = chars_of(s.b)
+    if chars:
+        cond, nb = pat.match_at(s.b, chars, len(chars) - 1)
+        if cond is not False and I.branch(cond):
+            return Some(sub(s, 0, len(s.b) - nb))
+    return NONE
+
+
+@reg('str::find')
+def _find(I, a, ci, dt):
+    s = as_sstr(I, a[0])
+    r = find_first(I, s.b, Pat(I, a[1]))
+    return NONE if r is None else Some(r[0])
+
+
+@reg('str::rfind')
+def _rfind(I, a, ci, dt):
+    s = as_sstr(I, a[0])
+    r = find_last(I, s.b, Pat(I, a[1]))
+    return NONE if r is None else Some(r[0])
+
+
+@reg('str::contains')
+def _contains(I, a, ci, dt):
+    s = as_sstr(I, a[0])
+    return find_first(I, s.b, Pat(I, a[1])) is not None
+
+
+@reg('str::split_once')
+def _split_once(I, a, ci, dt):
+    s = as_sstr(I, a[0])
+    r = find_first(I, s.b, Pat(I, a[1]))
+    if r is None:
+        return NONE
+    off, nb = r
+    return Some(Tuple(sub(s, 0, off), sub(s, off + nb, len(s.b))))
+
+
+@reg('str::rsplit_once')
+def _rsplit_once(I, a, ci, dt):
+    s = as_sstr(I, a[0])
+    r = find_last(I, s.b, Pat(I, a[1]))
+    if r is None:
+        return NONE
+    off, nb = r
+    return Some(Tuple(sub(s, 0, off), sub(s, off + nb, len(s.b))))
+
+
+def split_all(I, s, pat, inclusive=False):
+    """Eager split (forks on each possible separator position)."""
+    out = []
+    start = 0
+    chars = chars_of(s.b)
+    k = 0
+    while k < len(chars):
+        cond, nb = pat.match_at(s.b, chars, k)
+        if cond is not False and nb and I.branch(cond):
+            off = chars[k][0]
+            out.append(sub(s, start, off + nb if inclusive else off))
+            start = off + nb
+            # advance k past the match
+            while k < len(chars) and chars[k][0] < start:
+                k += 1
+            continue
+        k += 1
+    if inclusive:
+        if start < len(s.b):
+            out.append(sub(s, start, len(s.b)))
+    else:
+        out.append(sub(s, start, len(s.b)))
+    return out
+
+
+class LazySplit(IterVal):
+    """split / split_inclusive / lines evaluated lazily: one piece per next()."""
+    __slots__ = ('s', 'pat', 'mode', 'done')
+
+    def __init__(self, s, pat, mode, done=False):
+        self.s = s
+        self.pat = pat
+        self.mode = mode   # 'split' | 'inclusive' | 'lines' | 'terminator'
+        self.done = done
+
+    def nxt(self, I):
+        if self.done:
+            return None, self
+        s = self.s
+        if self.mode in ('inclusive', 'lines') and len(s.b) == 0:
+            return None, LazySplit(s, self.pat, self.mode, True)
+        r = find_first(I, s.b, self.pat)
+        if r is None:
+            piece = s
+            rest = LazySplit(sub(s, len(s.b), len(s.b)), self.pat, self.mode, True)
+        else:
+            off, nb = r
+            piece = sub(s, 0, off + nb if self.mode == 'inclusive' else off)
+            rest_s = sub(s, off + nb, len(s.b))
+            rest = LazySplit(rest_s, self.pat, self.mode, False)
+        if self.mode == 'lines':
+            # strip one trailing '\r'
+            if len(piece.b) and I.branch(beq(piece.b[-1], 13)):
+                piece = sub(piece, 0, len(piece.b) - 1)
+        return piece, rest
+
+
+@reg('str::split')
+def _split(I, a, ci, dt):
+    return LazySplit(as_sstr(I, a[0]), Pat(I, a[1]), 'split')
+
+
+@reg('str::split_inclusive')
+def _split_inclusive(I, a, ci, dt):
+    return LazySplit(as_sstr(I, a[0]), Pat(I, a[1]), 'inclusive')
+
+
+@reg('str::lines')
+def _lines(I, a, ci, dt):
+    return LazySplit(as_sstr(I, a[0]), Pat(I, 10), 'lines')
+
+
+@reg('str::split_whitespace', 'str::split_ascii_whitespace')
+def _split_ws(I, a, ci, dt):
+    s = as_sstr(I, a[0])
+    out = []
+    chars = chars_of(s.b)
+    cur = None
+    for off, cp, nb in chars:
+        if I.branch(char_is_ws(cp)):
+            if cur is not None:
+                out.append(sub(s, cur, off))
+                cur = None
+        elif cur is None:
+            cur = off
+    if cur is not None:
+        out.append(sub(s, cur, len(s.b)))
+    return ListIter(out)
+
+
+@reg('str::match_indices')
+def _match_indices(I, a, ci, dt):
+    s = as_sstr(I, a[0])
+    pat = Pat(I, a[1])
+    out = []
+    chars = chars_of(s.b)
+    k = 0
+    while k < len(chars):
+        cond, nb = pat.match_at(s.b, chars, k)
+        if cond is not False and nb and I.branch(cond):
+            off = chars[k][0]
+            out.append(Tuple(off, sub(s, off, off + nb)))
+            while k < len(chars) and chars[k][0] < off + nb:
+                k += 1
+            continue
+        k += 1
+    return ListIter(out)
+
+
+@reg('str::chars')
+def _chars(I, a, ci, dt):
+    s = as_sstr(I, a[0])
+    return ListIter([cp for (_o, cp, _n) in chars_of(s.b)])
+
+
+@reg('str::char_indices')
+def _char_indices(I, a, ci, dt):
+    s = as_sstr(I, a[0])
+    return ListIter([Tuple(o, cp) for (o, cp, _n) in chars_of(s.b)])
+
+
+@reg('str::bytes')
+def _bytes(I, a, ci, dt):
+    return ListIter(as_sstr(I, a[0]).b)
+
+
+@reg('str::replacen', 'str::replace')
+def _replacen(I, a, ci, dt):
+    s = as_sstr(I, a[0])
+    pat = Pat(I, a[1])
+    to = as_sstr(I, a[2]).b
+    limit = I.concretize(a[3]) if ci.method == 'replacen' else 1 << 30
+    out = []
+    pos = 0
+    cnt = 0
+    bs = s.b
+    while cnt < limit:
+        r = find_first(I, bs[pos:], pat)
+        if r is None:
+            break
+        off, nb = r
+        if nb == 0:
+            break
+        out.extend(bs[pos:pos + off])
+        out.extend(to)
+        pos = pos + off + nb
+        cnt += 1
+    out.extend(bs[pos:])
+    return new_string(I, out)
+
+
+def lower_byte(b):
+    if conc(b):
+        return b + 32 if 65 <= b <= 90 else b
+    return z3.If(z3.And(b >= 65, b <= 90), b + 32, b)
+
+
+def upper_byte(b):
+    if conc(b):
+        return b - 32 if 97 <= b <= 122 else b
+    return z3.If(z3.And(b >= 97, b <= 122), b - 32, b)
+
+
+@reg('str::to_lowercase', 'str::to_ascii_lowercase', 'str::to_uppercase', 'str::to_ascii_uppercase')
+def _to_lower(I, a, ci, dt):
+    s = as_sstr(I, a[0])
+    lower = 'lower' in ci.method
+    if all_conc(s.b) and 'ascii' not in ci.method:
+        try:
+            t = bytes(s.b).decode('utf-8')
+            t = t.lower() if lower else t.upper()
+            return new_string(I, t.encode('utf-8'))
+        except UnicodeDecodeError:
+            pass
+    f = lower_byte if lower else upper_byte
+    return new_string(I, [f(b) if (not conc(b) or b < 128) else b for b in s.b])
+
+
+@reg('str::eq_ignore_ascii_case')
+def _eq_ignore_case(I, a, ci, dt):
+    x = as_sstr(I, a[0]).b
+    y = as_sstr(I, a[1]).b
+    if len(x) != len(y):
+        return False
+    return bytes_equal([lower_byte(b) for b in x], [lower_byte(b) for b in y])
+
+
+@reg('<str as PartialEq>::eq', '<String as PartialEq>::eq', '<&str as PartialEq>::eq', '<PathBuf as PartialEq>::eq',
+     '<OsString as PartialEq>::eq', '<Path as PartialEq>::eq', '<OsStr as PartialEq>::eq')
+def _str_eq(I, a, ci, dt):
+    return bytes_equal(as_sstr(I, a[0]).b, as_sstr(I, a[1]).b)
+
+
+@reg('<str as PartialEq>::ne', '<String as PartialEq>::ne', '<&str as PartialEq>::ne', '<PathBuf as PartialEq>::ne')
+def _str_ne(I, a, ci, dt):
+    return sym_not(bytes_equal(as_sstr(I, a[0]).b, as_sstr(I, a[1]).b))
+
+
+@reg('<str as Ord>::cmp', '<String as Ord>::cmp', '<&str as Ord>::cmp')
+def _str_cmp(I, a, ci, dt):
+    return compare_bytes(I, as_sstr(I, a[0]).b, as_sstr(I, a[1]).b)
+
+
+# ------------------------------------------------------------------ parsing numbers
+
+class FloatVal:
+    """f64 restricted to what the bounds need: an exactly representable integer value
+    (possibly symbolic) or a concrete Python float."""
+    __slots__ = ('kind', 'v', 'negzero')
+
+    def __init__(self, kind, v, negzero=False):
+        self.kind = kind     # 'int' | 'py'
+        self.v = v
+        self.negzero = negzero
+
+    def __repr__(self):
+        return 'f64(%s,%r)' % (self.kind, self.v)
+
+
+def digits_value(bs):
+    v = 0
+    for b in bs:
+        v = v * 10 + (b - 48)
+    return v
+
+
+def parse_uint(I, s, ty):
+    from .interp import int_range
+    lo, hi = int_range(ty)
+    bs = s.b
+    if len(bs) == 0:
+        return Err(Opaque('ParseIntError', 'empty'))
+    neg = False
+    if I.branch(beq(bs[0], 43)):
+        bs = bs[1:]
+    elif lo < 0 and I.branch(beq(bs[0], 45)):
+        bs = bs[1:]
+        neg = True
+    if len(bs) == 0:
+        return Err(Opaque('ParseIntError', 'invalid digit'))
+    for b in bs:
+        if not I.branch(byte_between(b, 48, 57)):
+            return Err(Opaque('ParseIntError', 'invalid digit'))
+    v = digits_value(bs)
+    if neg:
+        v = -v
+    if conc(v):
+        if not (lo <= v <= hi):
+            return Err(Opaque('ParseIntError', 'overflow'))
+        return Ok(v)
+    if len(bs) >= len(str(hi)):
+        if not I.branch(z3.And(v >= lo, v <= hi)):
+            return Err(Opaque('ParseIntError', 'overflow'))
+    return Ok(v)
+
+
+_FLOAT_RE = re.compile(r'^[+-]?(\d+\.?\d*([eE][+-]?\d+)?|\.\d+([eE][+-]?\d+)?|inf|infinity|nan)$', re.I)
+
+
+def parse_f64(I, s):
+    bs = s.b
+    if all_conc(bs):
+        try:
+            t = bytes(bs).decode('utf-8')
+        except UnicodeDecodeError:
+            return Err(Opaque('ParseFloatError'))
+        if not _FLOAT_RE.match(t):
+            return Err(Opaque('ParseFloatError'))
+        try:
+            return Ok(FloatVal('py', float(t)))
+        except ValueError:
+            return Err(Opaque('ParseFloatError'))
+    # symbolic: only the integer-literal fragment  [+-]?[0-9]{1,15}  is modelled exactly;
+    # any other valid float syntax over the alphabet is outside the stated bound.
+    if len(bs) == 0:
+        return Err(Opaque('ParseFloatError'))
+    neg = False
+    if I.branch(beq(bs[0], 45)):
+        neg = True
+        bs = bs[1:]
+    elif I.branch(beq(bs[0], 43)):
+        bs = bs[1:]
+    if len(bs) == 0:
+        return Err(Opaque('ParseFloatError'))
+    if len(bs) > 15:
+        raise Unmodelled('symbolic f64 literal longer than 15 digits')
+    for b in bs:
+        if not I.branch(byte_between(b, 48, 57)):
+            # other float syntax: '.', 'e', 'inf', 'nan' ...
+            if I.branch(byte_in(b, (46, 101, 69, 105, 73, 110, 78))):
+                raise Unmodelled('symbolic non-integer f64 literal (outside the stated bound)')
+            return Err(Opaque('ParseFloatError'))
+    v = digits_value(bs)
+    if neg:
+        v = -v
+    return Ok(FloatVal('int', v, negzero=neg))
+
+
+@reg('str::parse')
+def _parse(I, a, ci, dt):
+    s = as_sstr(I, a[0])
+    ty = (ci.generics or '').strip()
+    if not ty and dt:
+        m = re.match(r'^(?:std::result::)?Result<(\w+),', dt)
+        ty = m.group(1) if m else ''
+    from .interp import INT_BITS
+    if ty in INT_BITS:
+        return parse_uint(I, s, ty)
+    if ty in ('f64', 'f32'):
+        return parse_f64(I, s)
+    if ty == 'bool':
+        if I.branch(bytes_equal(s.b, tuple(b'true'))):
+            return Ok(True)
+        if I.branch(bytes_equal(s.b, tuple(b'false'))):
+            return Ok(False)
+        return Err(Opaque('ParseBoolError'))
+    if ty.endswith('String'):
+        return Ok(new_string(I, s.b))
+    raise Unmodelled('str::parse::<%s>' % ty)
+
+
+def _fkey(f):
+    return f.v
+
+
+@reg('f64::total_cmp', 'f64::partial_cmp', '<f64 as PartialOrd>::partial_cmp')
+def _total_cmp(I, a, ci, dt):
+    x = I.deref_value(a[0]) if isinstance(a[0], Ref) else a[0]
+    y = I.deref_value(a[1]) if isinstance(a[1], Ref) else a[1]
+    if x.kind == 'py' and y.kind == 'py':
+        import struct
+
+        def key(v):
+            bits = struct.unpack('<q', struct.pack('<d', v))[0]
+            if bits < 0:
+                bits ^= 0x7FFFFFFFFFFFFFFF
+            return bits
+        kx, ky = key(x.v), key(y.v)
+        r = LESS() if kx < ky else (EQUAL() if kx == ky else GREATER())
+    else:
+        xv = x.v if x.kind == 'int' else None
+        yv = y.v if y.kind == 'int' else None
+        if xv is None or yv is None:
+            # mixed concrete float / symbolic int
+            fx = x if x.kind == 'py' else y
+            if fx.v != fx.v or fx.v in (float('inf'), float('-inf')) or fx.v != int(fx.v):
+                raise Unmodelled('mixed float comparison')
+            if xv is None:
+                xv = int(fx.v)
+                x = FloatVal('int', xv, negzero=(str(fx.v).startswith('-')))
+            else:
+                yv = int(fx.v)
+                y = FloatVal('int', yv, negzero=(str(fx.v).startswith('-')))
+        if I.branch(cmp_scalar('Lt', xv, yv)):
+            r = LESS()
+        elif I.branch(cmp_scalar('Gt', xv, yv)):
+            r = GREATER()
+        else:
+            # equal values: -0.0 < +0.0 in the total order
+            if x.negzero != y.negzero and I.branch(cmp_scalar('Eq', xv, 0)):
+                r = LESS() if x.negzero else GREATER()
+            else:
+                r = EQUAL()
+    if ci.method == 'partial_cmp':
+        return Some(r)
+    return r
+
+
+# ------------------------------------------------------------------ paths
+
+@reg('Path::file_name')
+def _file_name(I, a, ci, dt):
+    s = as_sstr(I, a[0])
+    bs = s.b
+    n = len(bs)
+    # strip trailing separators
+    while n > 0 and I.branch(beq(bs[n - 1], 47)):
+        n -= 1
+    if n == 0:
+        return NONE
+    k = n
+    while k > 0 and not I.branch(beq(bs[k - 1], 47)):
+        k -= 1
+    name = sub(s, k, n)
+    if len(name.b) == 2 and I.branch(bytes_equal(name.b, (46, 46))):
+        return NONE
+    if len(name.b) == 1 and I.branch(bytes_equal(name.b, (46,))):
+        # "a/." -> file_name is "a" in std (the "." component is normalised away)
+        rest = sub(s, 0, k)
+        if len(rest.b) == 0:
+            return NONE
+        return _file_name(I, [rest], ci, dt)
+    return Some(name)
+
+
+@reg('Path::join')
+def _path_join(I, a, ci, dt):
+    base = as_sstr(I, a[0]).b
+    p = as_sstr(I, a[1]).b
+    if len(p) and I.branch(beq(p[0], 47)):
+        return new_string(I, p)
+    if len(base) == 0:
+        return new_string(I, p)
+    if I.branch(beq(base[-1], 47)):
+        return new_string(I, base + p)
+    return new_string(I, base + (47,) + p)
+
+
+@reg('Path::extension')
+def _path_extension(I, a, ci, dt):
+    fn = _file_name(I, a, ci, dt)
+    if fn.v == 0:
+        return NONE
+    name = fn.f[0]
+    r = find_last(I, name.b, Pat(I, 46))
+    if r is None or r[0] == 0:
+        return NONE
+    return Some(sub(name, r[0] + 1, len(name.b)))
+
+
+@reg('Path::is_absolute')
+def _is_absolute(I, a, ci, dt):
+    p = as_sstr(I, a[0]).b
+    return len(p) > 0 and beq(p[0], 47)
